@@ -14,6 +14,7 @@ from loki.expression import (
 )
 from loki.ir import nodes as ir, FindNodes, FindVariables, Transformer
 from loki.subroutine import Subroutine
+from loki.types import BasicType
 from loki.tools import dict_override
 
 from loki.transformations.transform_loop import LoopUnrollTransformer
@@ -57,6 +58,18 @@ def invalidate_constants_map(lhs, constants_map):
         return
 
     constants_map.pop((lhs.basename, ()), None)
+
+
+def _literal_has_type_of(literal, var):
+    """
+    An assignment converts the value to the type of the variable; the literal
+    is the value that the variable holds only if no conversion is involved.
+    """
+    literal_type = {
+        BasicType.INTEGER: sym.IntLiteral, BasicType.REAL: sym.FloatLiteral,
+        BasicType.LOGICAL: sym.LogicLiteral, BasicType.CHARACTER: sym.StringLiteral
+    }.get(getattr(var.type, 'dtype', None))
+    return literal_type is not None and isinstance(literal, literal_type)
 
 
 def _separate_literals(children):
@@ -121,7 +134,7 @@ class ConstantPropagationTransformer(Transformer):
                 return o._rebuild(lhs=new_lhs, rhs=new_rhs)
 
         _, non_literals = _separate_literals((new_rhs,))
-        if not non_literals and not isinstance(new_lhs, sym.Array):
+        if not non_literals and not isinstance(new_lhs, sym.Array) and _literal_has_type_of(new_rhs, new_lhs):
             update_constants_map(new_lhs, new_rhs, constants_map)
         else:
             invalidate_constants_map(new_lhs, constants_map)
